@@ -4,7 +4,10 @@ import Bng.Model.PoolSpec
 /-
   bngdrv component `poolalloc`: replays traces of the real allocator.PoolAllocator over the fault-injecting
   MemoryAllocationStore (harness/cmd/poolalloc) on the model Bng.Dist.Pool; the pool monitor (C01/C05) judges
-  the allocation answers, the C12 monitor the store/memory audit.
+  the allocation answers, the C12 monitor the store/memory audit.  A second PoolAllocator `q` of the same
+  geometry shares the store (ops qalloc / qrelease / qlookup / qaudit, judged by monitors of its own); `xaudit`
+  is the by-IP index against the holders of BOTH pools; `scribble` (the harness writes through every pointer it
+  holds) is no operation of the model.
 -/
 namespace Bng.Drv.PoolAllocDrv
 open Bng Bng.Drv Bng.Dist
@@ -14,10 +17,62 @@ structure St where
   nsubs : Nat := 0
   pmon : PoolSpec.Mon := []
   dmon : DistSpec.Mon := {}
+  pmonQ : PoolSpec.Mon := []
+  dmonQ : DistSpec.Mon := {}
 
 def okOf (impl : String) : Bool := match splitTokens impl with
   | "ok" :: _ => true
   | _ => false
+
+
+/-- subscribers 1..n of a pool that hold (a, l) -/
+def holdersOf (n : Nat) (s : Session.State) (a l : Nat) : List Nat :=
+  ((List.range n).map (· + 1)).filter fun k => match Session.get s k with
+    | .okAddr a' l' => a' == a && l' == l
+    | _ => false
+
+def showHolders (hs : List Nat) : String :=
+  if hs.isEmpty then "-" else "+".intercalate (hs.map fun k => s!"s{k}")
+
+/-- the model's xaudit line: per unit, holders in p | holders in q | who the by-IP index names -/
+def xauditLine (n : Nat) (m : Pool.State) (units : List (Nat × Nat)) : String :=
+  ",".intercalate (units.map fun (a, l) =>
+    let o := match Pool.byIP m a with
+      | some (0, k) => s!"p/s{k}"
+      | some (1, k) => s!"q/s{k}"
+      | some (_, x) => s!"o/{DistDrv.showPfx x l}"
+      | none => "-"
+    s!"{DistDrv.showPfx a l}={showHolders (holdersOf n m.s a l)}|{showHolders (holdersOf n m.q a l)}|{o}")
+
+/-- the xaudit clauses, on the implementation's line: one address has at most one holder over both pools
+    (`unique`), and the by-IP index names exactly that holder — nobody when nobody of p or q holds it, except the
+    third pool (`reverse`) -/
+def xauditCheck (impl : String) : List (String × String × String) :=
+  (impl.splitOn ",").flatMap fun item =>
+    match item.splitOn "=" with
+    | [pfx, rest] =>
+      match rest.splitOn "|" with
+      | [hp, hq, o] =>
+        let multi := fun (h : String) => (h.splitOn "+").length > 1
+        let uniq : List (String × String × String) :=
+          (if multi hp then [("unique", "none", s!"{pfx} is held by {hp} in pool p")] else []) ++
+          (if multi hq then [("unique", "none", s!"{pfx} is held by {hq} in pool q")] else []) ++
+          (if hp != "-" && hq != "-" then
+            [("unique", "none", s!"{pfx} is held by {hp} in pool p and by {hq} in pool q over one store")] else [])
+        let want : Option String :=
+          if hp != "-" && hq == "-" && !multi hp then some s!"p/{hp}"
+          else if hq != "-" && hp == "-" && !multi hq then some s!"q/{hq}"
+          else none
+        let rev : List (String × String × String) := match want with
+          | some w => if o == w then [] else
+              [("reverse", "none", s!"{pfx} is held by {w} but the store's by-IP index names {o}")]
+          | none =>
+            if hp == "-" && hq == "-" && (o.startsWith "p/" || o.startsWith "q/" || o.startsWith "?/") then
+              [("reverse", "none", s!"nobody holds {pfx} but the store's by-IP index still names {o}")]
+            else []
+        uniq ++ rev
+      | _ => [("reverse", "none", s!"unreadable xaudit row {item}")]
+    | _ => [("reverse", "none", s!"unreadable xaudit row {item}")]
 
 def step (st : St) (toks : List String) (impl : String) : St × LineResult :=
   match toks with
@@ -40,6 +95,33 @@ def step (st : St) (toks : List String) (impl : String) : St × LineResult :=
         ({ st with model := some m', pmon := pm, dmon := dm },
          ({ modelObs := obs,
             viols := pv.map (fun (n, d) => (n, "none", d)) ++ dv.map (fun (n, d, _) => (n, "none", d)) } : LineResult))
+      let poolQ := fun (m' : Pool.State) (obs : String) (ev : PoolSpec.Ev) (dev : DistSpec.Ev) =>
+        let (pm, pv) := PoolSpec.check g st.pmonQ ev
+        let (dm, dv) := DistSpec.check st.dmonQ dev
+        ({ st with model := some m', pmonQ := pm, dmonQ := dm },
+         ({ modelObs := obs,
+            viols := pv.map (fun (n, d) => (n, "none", d)) ++ dv.map (fun (n, d, _) => (n, "none", d)) } : LineResult))
+      -- the audit of one pool: forward rows ; reverse rows (the STORE's by-IP index, records of this pool only) ;
+      -- GetPoolUtilization's allocated
+      let audit := fun (ps : Session.State) (dmon : DistSpec.Mon) =>
+        let units := (List.range (min c.totalBig 64)).map fun i => (Bitmap.prefixOf c i, c.plen)
+        let owner := fun (a l : Nat) => match ps.store.find? (fun p => p.2.addr == a && p.2.plen == l) with
+          | some p => Dist.Obs.sub p.1
+          | none => Dist.Obs.none
+        let line := DistDrv.auditLine st.nsubs ps.store (Session.get ps) units owner ++ s!";{ps.store.length}"
+        let (dev, cnt) : DistSpec.Ev × List (String × String × String) := match impl.splitOn ";" with
+          | [fw, rv, n] =>
+            match DistDrv.parseAudit (fw ++ ";" ++ rv), n.toNat? with
+            | some (rows, rev), some n =>
+              let have_ := (rows.filter fun r => r.2.1.isSome).length
+              -- the by-IP index is judged against the STORE rows (it is a store index)
+              let rowsS : List DistSpec.Row := rows.map fun r => (r.1, r.2.1, r.2.1.map fun (a, l, _) => (a, l))
+              (.audit rows [], (DistSpec.reverseCheck rowsS rev).map (fun (v, d, _) => (v, "none", d)) ++
+                (if n = have_ then [] else [("count", "none", s!"GetPoolUtilization reports {n} allocations, the pool has {have_} records")]))
+            | _, _ => (.nop, [])
+          | _ => (.nop, [])
+        let (dm, dv) := DistSpec.check dmon dev
+        (line, dm, dv.map (fun (n, d, _) => (n, "none", d)) ++ cnt)
       match toks with
       | ["alloc", k, f] => match parseTagged 's' k, DistDrv.bit f 0 with
         | some k, some f =>
@@ -97,28 +179,47 @@ def step (st : St) (toks : List String) (impl : String) : St × LineResult :=
           | "viol" :: mon :: rest => [(mon, "none", " ".intercalate rest)]
           | _ => []
         (st, { modelObs := "ok", viols := vs })
-      | ["audit"] =>
+      | ["qalloc", k, f] => match parseTagged 's' k, DistDrv.bit f 0 with
+        | some k, some f =>
+          let (m', o) := Pool.qalloc m k f
+          let ev : PoolSpec.Ev := match splitTokens impl with
+            | ["ok", a] => match parseAddrLen a with
+              | some (x, _) => .got k x
+              | none => .nop
+            | ["exhausted"] => .exhausted
+            | _ => .nop
+          poolQ m' (DistDrv.showObs o) ev (DistDrv.changed k impl (some 0))
+        | _, _ => (st, { modelObs := "badop" })
+      | ["qrelease", k, f] => match parseTagged 's' k, DistDrv.bit f 0 with
+        | some k, some f =>
+          let (m', o) := Pool.qrelease m k f
+          let ev : PoolSpec.Ev := match splitTokens impl with
+            | ["ok"] => .released k
+            | ["notfound"] => .notHeld k
+            | _ => .nop
+          poolQ m' (DistDrv.showObs o) ev (DistDrv.changed k impl none)
+        | _, _ => (st, { modelObs := "badop" })
+      | ["qlookup", k] => match parseTagged 's' k with
+        | some k =>
+          let obs := match Session.get m.q k with
+            | .okAddr a l => DistDrv.showPfx a l
+            | _ => "none"
+          let ev : PoolSpec.Ev := if impl == "none" then .looked k none else
+            match parseAddrLen impl with
+            | some (x, _) => .looked k (some x)
+            | none => .nop
+          poolQ m obs ev .nop
+        | none => (st, { modelObs := "badop" })
+      | ["scribble"] => (st, { modelObs := "ok" })
+      | ["xaudit"] =>
         let units := (List.range (min c.totalBig 64)).map fun i => (Bitmap.prefixOf c i, c.plen)
-        -- the reverse rows are the STORE's by-IP index (records of this pool only)
-        let owner := fun (a l : Nat) => match m.s.store.find? (fun p => p.2.addr == a && p.2.plen == l) with
-          | some p => Dist.Obs.sub p.1
-          | none => Dist.Obs.none
-        let line := DistDrv.auditLine st.nsubs m.s.store (Session.get m.s) units owner ++ s!";{m.s.store.length}"
-        -- the implementation's line: forward rows ; reverse rows ; GetPoolUtilization's allocated
-        let (dev, cnt) : DistSpec.Ev × List (String × String × String) := match impl.splitOn ";" with
-          | [fw, rv, n] =>
-            match DistDrv.parseAudit (fw ++ ";" ++ rv), n.toNat? with
-            | some (rows, rev), some n =>
-              let have_ := (rows.filter fun r => r.2.1.isSome).length
-              -- the by-IP index is judged against the STORE rows (it is a store index)
-              let rowsS : List DistSpec.Row := rows.map fun r => (r.1, r.2.1, r.2.1.map fun (a, l, _) => (a, l))
-              (.audit rows [], (DistSpec.reverseCheck rowsS rev).map (fun (v, d, _) => (v, "none", d)) ++
-                (if n = have_ then [] else [("count", "none", s!"GetPoolUtilization reports {n} allocations, the pool has {have_} records")]))
-            | _, _ => (.nop, [])
-          | _ => (.nop, [])
-        let (dm, dv) := DistSpec.check st.dmon dev
-        ({ st with dmon := dm },
-         { modelObs := line, viols := dv.map (fun (n, d, _) => (n, "none", d)) ++ cnt })
+        (st, { modelObs := xauditLine st.nsubs m units, viols := xauditCheck impl })
+      | ["audit"] =>
+        let (line, dm, vs) := audit m.s st.dmon
+        ({ st with dmon := dm }, { modelObs := line, viols := vs })
+      | ["qaudit"] =>
+        let (line, dm, vs) := audit m.q st.dmonQ
+        ({ st with dmonQ := dm }, { modelObs := line, viols := vs })
       | _ => (st, { modelObs := "badop" })
 
 def component : Component := { σ := St, init := {}, step := step }
